@@ -105,6 +105,41 @@ theorem C12_by_handler_name_keys_are_the_included_names (rs : List Res) (incl : 
   · rintro ⟨r, ⟨hr, hi⟩, hk⟩; exact ⟨r, hr, hi, hk⟩
   · rintro ⟨r, hr, hi, hk⟩; exact ⟨r, ⟨hr, hi⟩, hk⟩
 
+theorem nameStep_sets (acc : List (Nat × Val)) (r : Res) : (r.name, r.value) ∈ nameStep acc r := by
+  unfold nameStep
+  by_cases h : acc.any (·.1 == r.name) = true
+  · rw [if_pos h]
+    simp only [List.any_eq_true, beq_iff_eq] at h
+    obtain ⟨⟨k, v⟩, hx, hk⟩ := h
+    simp only at hk
+    exact List.mem_map.mpr ⟨(k, v), hx, by simp [hk]⟩
+  · rw [if_neg h]; simp
+
+theorem nameStep_keeps_other (acc : List (Nat × Val)) (r : Res) (k : Nat) (v : Val) (hm : (k, v) ∈ acc)
+    (hne : k ≠ r.name) : (k, v) ∈ nameStep acc r := by
+  unfold nameStep
+  split
+  · exact List.mem_map.mpr ⟨(k, v), hm, by simp [hne]⟩
+  · exact List.mem_append_left _ hm
+
+theorem fold_keeps_other (post : List Res) (acc : List (Nat × Val)) (k : Nat) (v : Val) (hm : (k, v) ∈ acc)
+    (hne : ∀ r ∈ post, r.name ≠ k) : (k, v) ∈ post.foldl nameStep acc := by
+  induction post generalizing acc with
+  | nil => exact hm
+  | cons r post ih =>
+    simp only [List.foldl_cons]
+    exact ih _ (nameStep_keeps_other acc r k v hm (fun h => hne r List.mem_cons_self h.symm))
+      (fun x hx => hne x (List.mem_cons_of_mem _ hx))
+
+/-- C12: under one handler name `event_results_by_handler_name` holds the value of the last included result with
+    that name (in handler order) — the value recorded for that handler, not another one. -/
+theorem C12_by_handler_name_holds_the_last_value_of_each_name (rs : List Res) (incl : Res → Bool) (ra rn : Bool)
+    (l : List (Nat × Val)) (h : byHandlerName rs incl ra rn = .ok l) (pre post : List Res) (r : Res)
+    (hsplit : rs.filter incl = pre ++ r :: post) (hlast : ∀ x ∈ post, x.name ≠ r.name) :
+    (r.name, r.value) ∈ l := by
+  rw [byHandlerName_ok rs incl ra rn l h, hsplit, List.foldl_append, List.foldl_cons]
+  exact fold_keeps_other post _ r.name r.value (nameStep_sets _ r) hlast
+
 /-- non-vacuity: two handlers share the name 7; the later value wins, the key keeps its first position -/
 example : byHandlerName [{ hid := 1, name := 7, status := .completed, value := .int 4 },
       { hid := 2, name := 8, status := .completed, value := .int 5 },
